@@ -89,6 +89,25 @@ def body_scaffold(case, rec):
         raise Violation(f"double reversal: {conv.plain_rows(r2.rows)} != original {conv.plain_rows(s.rows)}")
     if (r1.name, r1.original_name, r1.original_tags) != (s.name, s.original_name, s.original_tags):
         raise Violation("reversal lost name / original_name / original_tags")
+    # history: reverse, modify the scaffold, reverse again - the second reversal must reflect the current rows
+    extra = conv.mk_rows(case.get("extra", []))
+    if extra:
+        from tola.assembly.gap import Gap
+
+        other = Scaffold("o", extra)
+        def check_now(what):
+            now = conv.plain_rows(s.rows)
+            again = conv.plain_rows(must(s.reverse, what=f"Scaffold.reverse after {what}").rows)
+            want2 = [[r[0], r[1], r[2], r[3], -r[4], *r[5:]] if r[0] == "F" else list(r) for r in reversed(now)]
+            if again != want2:
+                raise Violation(f"reversal after {what} does not reflect the current rows: {again} vs {want2}")
+
+        s.append_scaffold(other, Gap(200, "scaffold") if case.get("with_gap") else None)
+        check_now("append_scaffold")
+        s.add_row(conv.mk_row(["F", "tail", 5, 9, -1]))
+        check_now("add_row")
+        s.rows.extend(conv.mk_rows([["G", 7, "scaffold"], ["F", "tail2", 1, 2, 1]]))
+        check_now("extending .rows")
     # OverlapResult.to_scaffold: minus bait = reversal of plus bait
     if any(r[0] == "F" for r in rows):
         asm = IndexedAssembly("a", scaffolds=[Scaffold("s", conv.mk_rows(rows))])
@@ -145,7 +164,11 @@ def scaffold_cases(draw):
             a = draw(st.integers(1, 10**6))
             tags = draw(st.lists(st.sampled_from(TAGS), max_size=3, unique=True))
             rows.append(["F", draw(st.sampled_from(["c1", "c2", f"ctg{k}"])), a, a + draw(st.integers(0, 10**5)), draw(st.sampled_from([1, -1, 0])), tags])
-    return {"rows": rows}
+    extra = []
+    for k in range(draw(st.integers(0, 3))):
+        a = draw(st.integers(1, 1000))
+        extra.append(["F", f"x{k}", a, a + draw(st.integers(0, 50)), draw(st.sampled_from([1, -1, 0]))])
+    return {"rows": rows, "extra": extra, "with_gap": draw(st.booleans())}
 
 
 @st.composite
